@@ -85,6 +85,26 @@ def pairing(chk):
                         removed.add(f.value.attr)
         if p.end[1] is not None and "super().__exit__(" in U(p.end[1]):
             sup_exit = True
+        # exception safety: nothing that can raise may precede the last release, unless the releases sit in a finally block
+        last_release = max([ef[2] for ef in p.effects if ef[0] == "expr" and isinstance(ef[1], ast.Call) and isinstance(ef[1].func, ast.Attribute) and ef[1].func.attr == "remove"] + [0])
+        in_finally = any(isinstance(n, ast.Try) and n.finalbody and any(isinstance(c, ast.Call) and isinstance(c.func, ast.Attribute) and c.func.attr == "remove" for s_ in n.finalbody for c in ast.walk(s_)) for n in ast.walk(exit_))
+        risky = []
+        for ef in p.effects:
+            if ef[0] == "expr" and isinstance(ef[1], ast.Call) and ef[2] < last_release:
+                t = U(ef[1])
+                f_ = ef[1].func
+                if t.startswith("super().__exit__(") or (isinstance(f_, ast.Attribute) and f_.attr == "remove"):
+                    continue
+                risky.append(t[:60])
+            elif ef[0] in ("store", "substore", "augstore", "del") and ef[4 if ef[0] in ("store", "substore", "augstore") else 2] < last_release:
+                val = ef[3] if ef[0] in ("store", "substore", "augstore") else None
+                if val is not None and any(isinstance(n, (ast.Call, ast.Subscript)) for n in ast.walk(val)):
+                    risky.append(U(val)[:60])
+        if risky and not in_finally:
+            chk.bad("C13.R1", site, "Calibration.__exit__", "operation that can raise before the handles are released", f"__exit__ path ({' & '.join(p.cond_texts()) or 'unconditional'}) runs {risky} before the last handle is removed and outside a try/finally: if it raises, the global hooks stay registered",
+                    "leaving the context" + (" through an exception" if cond_on_exc else "") + " in a configuration where that operation raises (e.g. an attribute that only exists for some constructor arguments)")
+        else:
+            chk.ok("C13.R1", site, "no operation that can raise precedes the release of the handles (or the releases are in a finally block)")
         missing = sorted(set(handles) - removed)
         chk.require("C13.R1", site, not missing, f"__exit__ path ({' & '.join(p.cond_texts()) or 'unconditional'}) removes every stored handle {sorted(handles)}; missing={missing}", "Calibration.__exit__",
                     f"handle not removed: {','.join(missing)}", "leaving the context" + (" through an exception" if cond_on_exc else "") + ": a global hook stays registered and later forwards keep updating scales")
